@@ -236,6 +236,9 @@ where
     rem_connect_x::<TA, TB, TB, TA>(a, b, seed, label_base).await
 }
 
+/// 0: transport chosen by VERIF_STREAM / seed, 1: frames, 2: byte stream.
+pub static FORCE_STREAM: std::sync::atomic::AtomicU8 = std::sync::atomic::AtomicU8::new(0);
+
 /// Connection whose two ends may disagree about the item types (version skew): A sends `AS` and receives `AR`,
 /// B sends `BS` and receives `BR`.
 pub async fn rem_connect_x<AS, AR, BS, BR>(a: &EpCfg, b: &EpCfg, seed: u64, label_base: u64) -> RemConnX<AS, AR, BS, BR>
@@ -254,9 +257,11 @@ where
     let pump = spawn_pump(vec![ab.clone(), ba.clone()], seed);
     // transport: frames handed over as they are (Connect::framed) or a byte stream with length-prefixed frames
     // (Connect::io) delivered in seeded pieces; VERIF_STREAM=0|1 forces one of them, otherwise the seed decides
-    let stream = match std::env::var("VERIF_STREAM").ok().as_deref() {
-        Some("0") => false,
-        Some("1") => true,
+    let stream = match (FORCE_STREAM.load(std::sync::atomic::Ordering::SeqCst), std::env::var("VERIF_STREAM").ok().as_deref()) {
+        (1, _) => false,
+        (2, _) => true,
+        (_, Some("0")) => false,
+        (_, Some("1")) => true,
         _ => seed % 3 == 0,
     };
     tr(json!({"ev": "transport", "stream": stream, "label": label_base}));
